@@ -1,6 +1,7 @@
 CONSTANTS
   Ext <- NoExtensions
   Conv = "bundled"
+  Syntax <- SyntaxAsExt
   Defects = FALSE
   Mode = "sim"
   Kernel = "full"
